@@ -653,10 +653,7 @@ class SimulateOde(DeterministicOde):
 
         # if exact, each point corresponds to a transitions and has weight 1.
         for i in range(n_trans):
-            if exact:
-                hist, bin_edges=np.histogram(t, bins=targetTime)
-            else:
-                hist, bin_edges=np.histogram(t[1:], bins=targetTime, weights=dX[:,i])
+            hist, bin_edges=np.histogram(t[1:], bins=targetTime, weights=dX[:,i])
             X_out[:,i]=hist            
 
         return X_out
